@@ -24,7 +24,7 @@ SHRINK_LISTS = [('cutsets',), ('cutsets', '*'), ('bcase', 'items'),
                 ('bcase', 'trailing')]
 EXPECTED_PROBES = ['cut_inside_header', 'cut_inside_reply', 'one_byte_delivery',
                    'cut_inside_utf8_char', 'variant_runs',
-                   'other_connection_interleaved']
+                   'other_connection_interleaved', 'proxy_answer_segmented']
 
 BASES = ['C01', 'C04', 'C05', 'C06', 'C10']
 USABLE = {'C01': ['seeded'], 'C04': ['seeded'], 'C05': ['seeded'],
@@ -120,7 +120,10 @@ def make_case(family, i, rng, tier):
                 else 'passive',
                 'k': 8 if tier == 'quick' else 16,
                 'cs_seed': rng.getrandbits(32)}
-        if rng.random() < 0.25:
+        if rng.random() < 0.2 and bname != 'C10':
+            # through an HTTP proxy: the proxy's answer is segmented too
+            case['via_proxy'] = rng.getrandbits(16)
+        elif rng.random() < 0.25:
             # a second, unrelated connection of the same process is being
             # read between the reads of this one (seeded interleaving)
             case['other'] = {'order': [rng.randrange(2) for _ in range(
@@ -159,7 +162,28 @@ def _scenario(case):
     conn.setdefault('close_timeout', 30)
     if case.get('app') and case['app'] != 'passive':
         sc['app'] = _app(case['app'])
+    if case.get('via_proxy') is not None:
+        c0 = sc['conns'][0]
+        c0['proxy'] = {'steps': [{'op': 'await_request', 'nth': 1},
+                                 {'op': 'reply', 'tmpl': PROXY_200.hex(),
+                                  'cuts': [], 'gaps': [0]}],
+                       'then_server': True}
+        c0['server'][0] = dict(c0['server'][0], nth=2)
+        sc.setdefault('ws', {})
+        sc['ws'] = dict(sc['ws'] or {}, proxies={'http': 'http://proxy.test:3128'})
     return sc
+
+
+PROXY_200 = (b'HTTP/1.1 200 Connection established\r\nVia: 1.1 proxy.test\r\n'
+             b'Proxy-Agent: sim/1.0\r\n\r\n')
+
+
+def _proxy_cuts(case, nvar):
+    rng = random.Random((case['via_proxy'] << 8) + nvar)
+    n = len(PROXY_200)
+    if nvar % 4 == 0:
+        return list(range(1, n))
+    return sorted(set(rng.randrange(1, n) for _ in range(rng.randrange(1, 5))))
 
 
 def _structural_cuts(data, rlen):
@@ -299,6 +323,10 @@ def execute(case):
         st2 = sc2['conns'][0]['server'][1]
         st2['cuts'] = cs
         st2['gaps'] = [0]
+        if case.get('via_proxy') is not None:
+            sc2['conns'][0]['proxy']['steps'][1]['cuts'] = \
+                _proxy_cuts(case, nvar)
+            res.stats['probe:proxy_answer_segmented'] += 1
         if case.get('other') and len(cs) > 300:
             continue
         tr = _run(sc2, case)
